@@ -11,7 +11,9 @@ R: the real compiler emits every function twice (hook verifNoDCE keeps all instr
 """
 import json
 
+import c06
 import semcmp
+import largelib
 import semlib
 import vlib
 
@@ -128,6 +130,11 @@ def run(ck):
         if va == "agree":
             agree += 1
         deterministic = len(ms) == 1 and ms[0]["k"] != "excluded"
+        if deterministic and a["k"] == "runtime_error" and c06.order_dependent(p):
+            # the model's outcome of a failing run is its error class and position, not the globals at that moment: with a for-in over
+            # a map the globals reached before the failure may differ between two real runs
+            a = {k: v for k, v in a.items() if k != "g"}
+            b = {k: v for k, v in b.items() if k != "g"}
         if deterministic and norm(a) != norm(b):
             ck.violation("twin-run", "optimized and unoptimized code behave differently:\n%s\nopt:   %s\nunopt: %s" % (
                 p["src"], json.dumps(a)[:600], json.dumps(b)[:600]), {"program": p, "opt": a, "unopt": b})
@@ -143,6 +150,9 @@ def run(ck):
     if pairs:
         big = max(pairs, key=lambda q: len(q["unopt"]) - len(q["opt"]))
         ck.add_sample({"src": byid[big["id"]]["src"], "fn_const": big["fn"], "unopt_len": len(big["unopt"]), "opt_len": len(big["opt"])})
+    # functions beyond 64 KiB (jump operands above 16 bits, also after dead code was removed in front of them): optimized vs
+    # not optimized vs closed form
+    largelib.judge(ck, quick)
     ck.rule = ("exhaustive: all abstract instruction sequences up to the bound; real: every non-main function of generated programs "
                "(family dce biased to return/break/continue layouts); non-trivial = function pairs where the optimizer removed code")
     ck.assumptions = ["the no-DCE hook keeps every instruction and changes nothing else (it reuses the same passes)",
